@@ -43,7 +43,7 @@ package service
 // EndBlocker$1 = expiredRequestHandler(requestID, request): called for every still-pending request of an expired batch.
 //@ func EndBlocker$1
 //@ props C02 C04 C08 C16 C03
-//@ preserves [C02,C16] pending_requests_stay_well_formed: actInv(raw)
+//@ preserves [C01,C02,C16] pending_requests_stay_well_formed: actInv(raw)
 //@ modifies raw, bal, supply
 //@ preserves wf: WF(raw)
 //@ preserves [C03] deposits_in_custody: depInv(raw, bal)
@@ -153,7 +153,7 @@ package service
 //@ ensures error_changes_nothing: err != NoErr ==> raw == old(raw) && bal == old(bal)
 
 //@ func handleMsgPauseRequestContext
-//@ preserves [C02,C16,C11] pending_requests_stay_well_formed: actInv(raw)
+//@ preserves [C01,C02,C16,C11] pending_requests_stay_well_formed: actInv(raw)
 //@ props C05 C09
 //@ modifies raw
 //@ ensures [C05] only_the_consumer_and_never_a_module_context: err == NoErr ==> (let c := ctxOf(old(raw), msg.RequestContextId) in
@@ -163,7 +163,7 @@ package service
 //@ ensures error_changes_nothing: err != NoErr ==> raw == old(raw)
 
 //@ func handleMsgStartRequestContext
-//@ preserves [C02,C16,C11] pending_requests_stay_well_formed: actInv(raw)
+//@ preserves [C01,C02,C16,C11] pending_requests_stay_well_formed: actInv(raw)
 //@ props C05 C09
 //@ modifies raw
 //@ ensures [C05] only_the_consumer_and_never_a_module_context: err == NoErr ==> (let c := ctxOf(old(raw), msg.RequestContextId) in
@@ -172,7 +172,7 @@ package service
 //@ ensures error_changes_nothing: err != NoErr ==> raw == old(raw)
 
 //@ func handleMsgKillRequestContext
-//@ preserves [C02,C16,C11] pending_requests_stay_well_formed: actInv(raw)
+//@ preserves [C01,C02,C16,C11] pending_requests_stay_well_formed: actInv(raw)
 //@ props C05 C09
 //@ modifies raw
 //@ ensures [C05] only_the_consumer_and_never_a_module_context: err == NoErr ==> (let c := ctxOf(old(raw), msg.RequestContextId) in
@@ -182,7 +182,7 @@ package service
 //@ ensures error_changes_nothing: err != NoErr ==> raw == old(raw)
 
 //@ func handleMsgUpdateRequestContext
-//@ preserves [C02,C16,C11] pending_requests_stay_well_formed: actInv(raw)
+//@ preserves [C01,C02,C16,C11] pending_requests_stay_well_formed: actInv(raw)
 //@ props C05 C09 C10
 //@ modifies raw
 //@ requires a2_validated: msg.Timeout >= 0
